@@ -71,6 +71,36 @@ def expected_names(case, compact, more_out):
     return nin, nout
 
 
+def expected_sizes(case, compact, more_out):
+    desc, order = case.desc, case.order
+    lay = D.var_layout(desc)
+    G3 = ("states", "actions", "disturbances")
+    linkset = {l["id"]: l["N"] for l in desc["links"]}
+    orgs = [e for e in order if e in {o["id"] for o in desc["origins"]}]
+    links = [e for e in order if e in linkset]
+    if compact <= 0:
+        sin = [n for grp in G3 for eid in order for _, n in lay[eid][grp]] + [1] * len(case.parameters)
+        sout = [n for eid in order for _, n in lay[eid]["states"]]
+        if more_out:
+            sout += [linkset[e] for e in links] + [1] * len(orgs)
+        return sin, sout
+    by = {g: {} for g in G3}
+    for grp in G3:
+        for eid in order:
+            for v, n in lay[eid][grp]:
+                by[grp][v] = by[grp].get(v, 0) + n
+    nq = sum(linkset[e] for e in links)
+    if compact == 1:
+        sin = [n for grp in G3 for n in by[grp].values()]
+        sout = list(by["states"].values()) + ([nq, len(orgs)] if more_out else [])
+    else:
+        sin = [sum(by[grp].values()) for grp in G3]
+        sout = [sum(by["states"].values())] + ([nq + len(orgs)] if more_out else [])
+    if case.parameters:
+        sin.append(len(case.parameters))
+    return sin, sout
+
+
 def n_scalars(desc):
     lay = D.var_layout(desc)
     return sum(n for L in lay.values() for grp in L.values() for _, n in grp)
@@ -113,12 +143,20 @@ def one_case(M, rec, rng, g, desc, pars, st):
             rec.violation(f"{PROP}:compact={compact}: total argument size differs from the number of independent variables + parameters",
                           dict(ctx, compact=compact, total=tot, expected=n_scalars(desc) + len(case.parameters)))
         nin, nout = expected_names(case, compact, more_out)
-        if list(F.name_in()) != nin:
-            rec.violation(f"{PROP}:compact={compact}: argument names/order differ from the documented layout",
-                          dict(ctx, compact=compact, names=list(F.name_in()), expected=nin))
-        if list(F.name_out()) != nout:
-            rec.violation(f"{PROP}:compact={compact}: result names/order differ from the documented layout",
-                          dict(ctx, compact=compact, names=list(F.name_out()), expected=nout))
+        # the statement fixes order and content, not the spelling of names: a different spelling is only
+        # counted; what must match is the sequence of argument/result SIZES implied by the documented
+        # layout (a permutation among equal sizes is caught numerically below)
+        if list(F.name_in()) != nin or list(F.name_out()) != nout:
+            rec.count("names_differ_from_documented_scheme")
+        sizes_in = [F.size1_in(i) * F.size2_in(i) for i in range(F.n_in())]
+        sizes_out = [F.size1_out(i) * F.size2_out(i) for i in range(F.n_out())]
+        exp_in, exp_out = expected_sizes(case, compact, more_out)
+        if sizes_in != exp_in:
+            rec.violation(f"{PROP}:compact={compact}: argument sizes/order differ from the documented layout",
+                          dict(ctx, compact=compact, names=list(F.name_in()), sizes=sizes_in, expected_sizes=exp_in, expected_names=nin))
+        if sizes_out != exp_out:
+            rec.violation(f"{PROP}:compact={compact}: result sizes/order differ from the documented layout",
+                          dict(ctx, compact=compact, names=list(F.name_out()), sizes=sizes_out, expected_sizes=exp_out, expected_names=nout))
     # numeric points: no init clamp ambiguity (non-negative inputs)
     for _pt in range(2):
         _, vals = g.values(desc, allow_inf=False)
@@ -241,7 +279,7 @@ def one_case(M, rec, rng, g, desc, pars, st):
                                         return
         except (R.Singular, R.Inadmissible):
             pass
-    if rec.counters.get("level_comparisons", 0) == 3:
+    if rec.counters.get("level_comparisons", 0) >= 1 and not rec.samples:
         rec.sample({"desc": desc, "sym_type": st, "names_in_level0": list(Fs[0].name_in()), "names_in_level1": list(Fs[1].name_in()),
                     "names_out_level1": list(Fs[1].name_out()), "live_order": case.order})
 
